@@ -118,12 +118,13 @@ PauseAll(M, t) ==
                         ELSE Go(CtxPause(MM, cs[i]), i - 1, err)
   IN Go([M EXCEPT !.tk[t].cact = FALSE], Len(cs), FALSE)
 
-(* AsyncTask._computed for a task completed from outside while its generator is suspended at a yield *)
+(* AsyncTask._computed for a task completed from outside: its generator, suspended at a yield (or not started yet), is closed *)
 FailSuspended(M, t, v) ==
   LET u == M.uidc + 1
       M0 == [M EXCEPT !.uidc = u]
-      M1 == ResumeAll(M0, t).M                         \* contexts are active while close() runs the __exit__s
-      M2 == Ev(M1, [e |-> "Closed", t |-> t, k |-> M.tk[t].pc])
+      started == M.tk[t].gen = "open"
+      M1 == IF started THEN ResumeAll(M0, t).M ELSE M0  \* contexts are active while close() runs the __exit__s
+      M2 == IF started THEN Ev(M1, [e |-> "Closed", t |-> t, k |-> M.tk[t].pc]) ELSE M1
       M3 == UnwindCtxs(M2, t)
       M4 == [M3 EXCEPT !.tk[t].gen = "none", !.tk[t].deps = <<>>, !.tk[t].lastv = Val("N", 0, <<>>), !.tk[t].st = "done"]
   IN TaskDoneEv(M4, t, v, u)
@@ -297,6 +298,23 @@ RunOps(M, F, t, k, i) ==
               ELSE RunOps([M3 EXCEPT !.tk[t].recvs = Append(@, oc.v)], F, t, k, i + 1)
       [] o.o = "dirty" ->
            RunOps(Ev([M EXCEPT !.reg = Upd(@, DedupKey(P, o.a), 0)], [e |-> "Dirty", t |-> t, a |-> o.a]), F, t, k, i + 1)
+      [] o.o = "cancelb" ->       \* BatchBase.cancel(error) on the pending active batch of that kind, from task code
+           LET b == M.cur[o.a] IN
+           IF b = 0 THEN RunOps(M, F, t, k, i + 1)
+           ELSE LET items == M.bt[b].items
+                    u == M.uidc + 1
+                    M0 == Ev([M EXCEPT !.uidc = u, !.cur[o.a] = 0, !.bt[b].st = "flushed"], [e |-> "CancelBegin", b |-> b, t |-> t])
+                    RECURSIVE Rest(_, _)
+                    Rest(MM, j) == IF j > Len(items) THEN MM
+                                   ELSE IF IsDone(MM, items[j]) THEN Rest(MM, j + 1)
+                                   ELSE Rest(DoneEv(MM, items[j], VX(32000 + o.a), u), j + 1)
+                    M1 == Ev(Rest(M0, 1), [e |-> "BatchDone", b |-> b, a |-> 1])
+                IN RunOps(M1, F, t, k, i + 1)
+      [] o.o = "fail" ->          \* another task is completed with an error from outside (set_error), if it is pending and not running
+           IF M.tk[o.a].st = "created" /\ ~IsDone(M, o.a) /\ o.a \notin M.running /\ ~M.tk[o.a].cact
+           THEN LET M0 == Ev(M, [e |-> "Kill", t |-> t, a |-> o.a])
+                IN RunOps(FailSuspended(M0, o.a, VX(33000 + o.a)), F, t, k, i + 1)
+           ELSE RunOps(M, F, t, k, i + 1)
       [] o.o = "set" ->
            LET x == IF o.a < 100 THEN o.a ELSE P.nvars + (o.a - 100)
            IN RunOps(Ev([M EXCEPT !.sv[x] = o.v], [e |-> "Set", t |-> t, a |-> o.a, b |-> o.v]), F, t, k, i + 1)
